@@ -8,6 +8,17 @@ A BAM is described by a picklable/JSON-able spec  [variant, D, min_mq, layout]:
           'edge'  core + read-1 records whose DS lies just outside the contig (-2, -1, length, length+1):
                   what the package's own CHiC tagger writes for a read that touches a contig end
                   (fragment/chic.py: site = reference_start-1 / reference_end)
+          'ext'   core + more filter letters on the job boundaries: records WITHOUT an SM tag (countable, and
+                  as duplicate), read 2 of a discordant pair, complete pairs (read 1 + read 2 both tagged, properly
+                  paired and discordant: only read 1 counts), MAPQ threshold+1 / 255, mp 'bad' / 'unknown',
+                  and records with two reasons not to be counted (duplicate+mp, duplicate+low MAPQ, mp+low MAPQ)
+                  so that switching ONE filter off (dedup=False, ignore_mp) must not let them through
+          'extsm' ext without the records that lack SM (for the entry point that has no default cell name)
+          'nods'  core + records WITHOUT a DS tag (reads starting / ending on a job boundary, both strands, with
+                  and without SM, and as duplicate / read 2): the property does not say in which bin such a
+                  record belongs, only that it is counted once and the same way for every job split
+  an optional 5th element names a second library made from the same records: 'L2all' every cell renamed
+  (cell -> cell_L2), 'L2B' only cellB renamed, 'L2none' same cell names (two lanes of one library)
   D       the distance parameter: 'far' records have their site D bases away from the nearest aligned base
           (or as far as the contig allows); the BAM is meant for max_fragment_size == D, so that the
           property's assumption  |DS - read span| <= max_fragment_size  holds for every record and is tight
@@ -114,17 +125,78 @@ def records(spec):
                                        (length + 1, length - RL, True)):
                 for rep in range(2):
                     add(contig, pos, site, reverse, ['site<0' if site < 0 else 'site>=contig-length'])
+        if variant in ('ext', 'extsm'):
+            xkinds = [
+                ('no-SM', {'cell': None}),
+                ('mapq-above-threshold', {'mapq': min(min_mq + 1, 255)}),
+                ('mapq-255', {'mapq': 255}),
+                ('pair-proper-complete', {'with_mate': True}),
+                ('pair-discordant-complete', {'with_mate': True, 'proper': False, 'mate_unmapped': False}),
+                ('no-SM+duplicate', {'cell': None, 'dup': True}),
+                ('read2-not-proper', {'read2': True, 'proper': False}),
+                ('mp-bad', {'mp': 'bad'}),
+                ('mp-unknown', {'mp': 'unknown'}),
+                ('duplicate+mp-not-unique', {'dup': True, 'mp': 'multi'}),
+                ('duplicate+mapq-below-threshold', {'dup': True, 'mapq': min_mq - 1}),
+                ('mp-not-unique+mapq-below-threshold', {'mp': 'multi', 'mapq': min_mq - 1}),
+                ('qcfail+mp-not-unique', {'qcfail': True, 'mp': 'multi'}),
+            ]
+            for j, site in enumerate(special_sites):
+                pl = _placements(site, length, D)
+                for k, (kind, kw) in enumerate(xkinds):
+                    label, pos = pl[(j + k + 1) % len(pl)]
+                    kw = dict(kw)
+                    if variant == 'extsm' and 'cell' in kw:
+                        continue                    # 'extsm': every record has a cell name
+                    kw.setdefault('cell', CELLS[(k // 3 ** (j % 3) + j) % 3])
+                    add(contig, pos, site, bool((j + k + 1) % 2), [kind, label], **kw)
+        if variant == 'nods':
+            nkinds = [
+                ('no-DS', {}),
+                ('no-DS+no-SM', {'cell': None}),
+                ('no-DS+duplicate', {'dup': True}),
+                ('no-DS+read2', {'read2': True}),
+            ]
+            for j, site in enumerate(special_sites):
+                # a read that STARTS on the boundary-ish coordinate and one that ENDS on it, both strands
+                for pos in (site, site - RL):
+                    if pos < 0 or pos + RL >= length:
+                        continue
+                    for reverse in (False, True):
+                        for k, (kind, kw) in enumerate(nkinds):
+                            kw = dict(kw)
+                            kw.setdefault('cell', CELLS[(j + k) % 3])
+                            add(contig, pos, None, reverse,
+                                [kind, 'read-starts-on-boundary' if pos == site else 'read-ends-on-boundary',
+                                 'rev' if reverse else 'fwd'], **kw)
     return recs
+
+
+LIB2 = {'L2all': None, 'L2B': ('cellB',), 'L2none': ()}
+
+
+def lib2_cell(cell, which):
+    """name of `cell` in the second library `which`"""
+    only = LIB2[which]
+    if cell is None:
+        return None
+    return cell + '_L2' if (only is None or cell in only) else cell
 
 
 def write_bam(spec, path):
     """Write the BAM of `spec` to `path` (coordinate sorted, indexed). Returns the record list."""
-    recs = records(spec)
+    recs = records(list(spec[:4]))
+    lib2 = spec[4] if len(spec) > 4 else None
     hdr = R.header(LAYOUTS[spec[3]])
     unsorted = path + '.unsorted.bam'
     with pysam.AlignmentFile(unsorted, 'wb', header=hdr) as out:
         for rec in recs:
-            tags = {'SM': rec['cell'], 'DS': rec['site']}
+            tags = {}
+            cell = rec['cell'] if lib2 is None else lib2_cell(rec['cell'], lib2)
+            if cell is not None:
+                tags['SM'] = cell
+            if rec['site'] is not None:
+                tags['DS'] = rec['site']
             if rec['da'] is not None:
                 tags['DA'] = rec['da']
             if rec['mp'] is not None:
@@ -133,10 +205,17 @@ def write_bam(spec, path):
                 tags['RR'] = 'rejected'
             flag_extra = (0x400 if rec['dup'] else 0) | (0x200 if rec['qcfail'] else 0)
             proper = rec['proper']
-            mate = (rec['contig'], rec['pos'], not rec['reverse'], not proper)
+            mate_unmapped = rec.get('mate_unmapped', not proper)
+            mate = (rec['contig'], rec['pos'], not rec['reverse'], mate_unmapped)
             out.write(R.make_read(hdr, rec['name'], 'A' * RL, rec['contig'], rec['pos'], f'{RL}M',
                                   reverse=rec['reverse'], read1=not rec['read2'], paired=True, mate=mate,
                                   mapq=rec['mapq'], tags=tags, proper=proper, flag_extra=flag_extra))
+            if rec.get('with_mate'):
+                # the other read of the pair, same name, same tags (the tagger writes DS / SM on both reads)
+                mate = (rec['contig'], rec['pos'], rec['reverse'], False)
+                out.write(R.make_read(hdr, rec['name'], 'A' * RL, rec['contig'], rec['pos'], f'{RL}M',
+                                      reverse=not rec['reverse'], read1=rec['read2'], paired=True, mate=mate,
+                                      mapq=rec['mapq'], tags=tags, proper=proper, flag_extra=flag_extra))
     pysam.sort('-o', path, unsorted)
     os.unlink(unsorted)
     pysam.index(path)
